@@ -124,7 +124,8 @@ def cms(repo, chk):
     for cellsrc in (f'self.M[i][{hname}(x, self.hash_seeds[i], self.width)]', f'self.M[i, {hname}(x, self.hash_seeds[i], self.width)]'):
         forms += [Q(f'min({cellsrc} for i in range(self.depth))'), Q(f'min([{cellsrc} for i in range(self.depth)])'), Q(f'numpy.min([{cellsrc} for i in range(self.depth)])')]
     forms += [Q(f'numpy.min(self.M[numpy.arange(self.depth), [{hname}(x, s, self.width) for s in self.hash_seeds]])'), Q(f'self.M[numpy.arange(self.depth), [{hname}(x, s, self.width) for s in self.hash_seeds]].min()'),
-              Q(f'min(self.M[i][{hname}(x, s, self.width)] for i, s in enumerate(self.hash_seeds))')]
+              Q(f'min(self.M[i][{hname}(x, s, self.width)] for i, s in enumerate(self.hash_seeds))'), Q(f'min([self.M[i][{hname}(x, s, self.width)] for i, s in enumerate(self.hash_seeds)])'),
+              Q(f'min(self.M[i][{hname}(x, s, self.width)] for i, s in enumerate(self.hash_seeds[:self.depth]))'), Q(f'min([self.M[i][{hname}(x, s, self.width)] for i, s in enumerate(self.hash_seeds[:self.depth])])')]
     if rt in forms:
         chk.ok('C15.3', 'R15', query.site(rets[0]), ast.unparse(rets[0]), 'estimate = min over all rows of the cell addressed exactly as in the update (same hash, seed, width)')
     else:
